@@ -67,6 +67,12 @@ func (p *Paragraph) WriteTo(out io.Writer) error {
 		/* Fold line by line: every continuation line gets its leading
 		 * space, and an empty line is written as " .". */
 		value := lines[0]
+		if strings.HasPrefix(value, " ") || strings.HasPrefix(value, "\t") {
+			/* The reader strips blanks around the first line, so a
+			 * first line that starts with indentation has to start on
+			 * a continuation line to keep it. */
+			value = "\n " + value
+		}
 		for _, line := range lines[1:] {
 			if line == "" {
 				line = "."
